@@ -183,6 +183,15 @@ class Interp(object):
             spec = self.contracts.classes[cls]
             fields = {}
             for f, fty in spec.fields.items():
+                if fty.startswith("Arith["):
+                    # ghost iterator over the arithmetic progression start, start+step, ... (< stop if has_stop)
+                    a, b, c, k = [x.strip() for x in fty[6:-1].split(",")]
+                    cell = IterCell(None, I(0))
+                    cell.kind = "arith"
+                    cell.nextval = reg.new("%s.%s$next" % (name, f), "Int")
+                    cell.step, cell.stop, cell.has_stop = int(k), fields[b].t, fields[c].t
+                    fields[f] = self.new_cell(st, cell)
+                    continue
                 fields[f] = self.make(fty, "%s.%s" % (name, f), st)
             return self.new_cell(st, ObjCell(cls, fields))
         raise Unsupported("type " + ty)
